@@ -1,5 +1,5 @@
 ---------------------------- MODULE Rewrite_Cfgs ----------------------------
-(* the configurations the rewrite system starts from: one native file each (schema: name, count, flag, tags, meta,
+(* the configurations the rewrite system starts from: one native file each (schema: name (required), count, flag, tags, meta,
    repeated labelled block server {host (required), port, opt {v}}, single block limits {max (required)}) *)
 EXTENDS Rewrite
 Sv(label, host, more) == Blk("server", <<label>>, <<Attr("host", S(host))>> \o more)
@@ -8,15 +8,18 @@ Opt(v) == <<Blk("opt", <<>>, <<Attr("v", S(v))>>)>>
 Lim(m) == Blk("limits", <<>>, <<Attr("max", N(m))>>)
 Bases == {
   [id |-> "c1", valid |-> TRUE, items |-> <<Attr("name", S("web")), Attr("count", N(5)), Sv("web", "h1", <<>>), Sv("db", "h2", <<>>), Lim(3)>>],
-  [id |-> "c2", valid |-> TRUE, items |-> <<Sv("web", "h1", Port(80)), Attr("flag", B(TRUE)), Sv("web", "h2", Port(81)), Attr("tags", Ls(<<"a", "b c">>)), Sv("db", "h3", Port(-3))>>],
+  [id |-> "c2", valid |-> TRUE, items |-> <<Sv("web", "h1", Port(80)), Attr("flag", B(TRUE)), Attr("name", Tm("if", "on")), Sv("web", "h2", Port(81)), Attr("tags", Ls(<<"a", "b c">>)), Sv("db", "h3", Port(-3))>>],
   [id |-> "c3", valid |-> TRUE, items |-> <<Attr("meta", Mp(<<<<"k", "v">>, <<"k2", "">> >>)), Sv("web", "h1", Opt("x")), Sv("db", "h2", Opt("y")), Attr("name", S("q\"\\ é"))>>],
-  [id |-> "c4", valid |-> TRUE, items |-> <<Attr("tags", Ls(<<>>)), Lim(0), Attr("flag", B(FALSE))>>],
-  [id |-> "c5", valid |-> TRUE, items |-> <<Sv("a", "h1", <<>>), Sv("b", "h2", Port(1)), Attr("count", N(0)), Sv("c", "h3", <<>>)>>],
+  [id |-> "c4", valid |-> TRUE, items |-> <<Attr("tags", Ls(<<>>)), Lim(0), Attr("flag", B(FALSE)), Attr("name", S("100%{x ${y} $${z}"))>>],
+  [id |-> "c5", valid |-> TRUE, items |-> <<Sv("a", "h1", <<>>), Sv("b", "h2", Port(1)), Attr("count", N(0)), Sv("c", "h3", <<>>), Attr("name", Tm("interp", "v2"))>>],
+  [id |-> "c7", valid |-> TRUE, items |-> <<Attr("name", Tm("pct", "50%{x} ")), Sv("t", "x", Opt("y")), Attr("tags", Ls(<<"%{", "%%{", "$">>))>>],
   [id |-> "c6", valid |-> TRUE, items |-> <<Attr("name", S("")), Sv("one", "h", Port(8080) \o Opt(""))>>],
   [id |-> "e1", valid |-> FALSE, items |-> <<Blk("server", <<"web">>, Port(1)), Attr("name", S("x"))>>],
-  [id |-> "e2", valid |-> FALSE, items |-> <<Attr("count", S("abc")), Sv("web", "h", <<>>)>>],
-  [id |-> "e3", valid |-> FALSE, items |-> <<Lim(1), Attr("flag", B(TRUE)), Lim(2)>>],
-  [id |-> "e4", valid |-> FALSE, items |-> <<Sv("web", "h", <<>>), Attr("bogus", N(1))>>] }
+  [id |-> "e2", valid |-> FALSE, items |-> <<Attr("count", S("abc")), Sv("web", "h", <<>>), Attr("name", S("n"))>>],
+  [id |-> "e3", valid |-> FALSE, items |-> <<Lim(1), Attr("flag", B(TRUE)), Lim(2), Attr("name", S("n"))>>],
+  [id |-> "e5", valid |-> FALSE, items |-> <<Attr("count", N(1)), Sv("web", "h", <<>>), Attr("flag", B(TRUE))>>],
+  [id |-> "e6", valid |-> FALSE, items |-> <<Attr("name", Tm("badif", "")), Attr("count", N(2))>>],
+  [id |-> "e4", valid |-> FALSE, items |-> <<Sv("web", "h", <<>>), Attr("bogus", N(1)), Attr("name", S("n"))>>] }
 VARIABLE cid
 cvars == <<vars, cid>>
 CInit == \E b \in Bases : /\ cid = b.id /\ files = <<File("native", 0, b.items)>> /\ base = files /\ steps = 0 /\ hist = <<>>
